@@ -269,6 +269,54 @@ def _vars(t):
     return out
 
 
+def _arrays_in(obj, depth=0):
+    out = []
+    if isinstance(obj, np.ndarray):
+        out.append(obj)
+    elif isinstance(obj, (tuple, list)) and depth < 3:
+        for x in obj:
+            out.extend(_arrays_in(x, depth + 1))
+    return out
+
+
+def h_no_aliasing(ctx):
+    """nothing a fitted estimator stores shares memory with the caller's arrays (so later changes to those
+    arrays cannot change its predictions), and fitting does not alter constructor parameters"""
+    kind = ctx.cfg["kind"]
+    stubs.reset_logs()
+    stubs.SCALE_CONTRACT["exact"] = False
+    e = np.array([p[0] for p in LAYOUT])
+    n = np.array([p[1] for p in LAYOUT])
+    d, d2, w = ctx.reals("d", 4), ctx.reals("dd", 4), ctx.reals("w", 4)
+    for v in w:
+        ctx.assume(v > 0)
+    sh = tuple(ctx.cfg.get("shape", (4,)))
+    inputs = [a.reshape(sh) for a in (e, n, d, d2, w)]
+    e_, n_, d_, d2_, w_ = inputs
+    est = _make(kind)
+    before = {k: v for k, v in est.get_params().items()}
+    with warnings.catch_warnings():
+        warnings.simplefilter("ignore")
+        if kind.startswith("vector"):
+            est.fit((e_, n_), (d_, d2_), (w_, w_))
+        elif kind in ("kneighbors", "linear", "cubic"):
+            est.fit((e_, n_), d_)
+        else:
+            est.fit((e_, n_), d_, w_)
+    stored = []
+    for name, val in vars(est).items():
+        for arr in _arrays_in(val):
+            stored.append((name, arr))
+    for name, arr in stored:
+        for src in inputs:
+            ctx.claim("fitted attribute does not alias an argument array", not np.shares_memory(arr, src) if arr.dtype == src.dtype or True else True)
+    after = est.get_params()
+    for k, v in before.items():
+        if kind == "vector" and k == "force_coords":
+            continue  # documented memory of VectorSpline2D
+        ctx.claim("fit leaves the constructor parameters untouched", after[k] is v)
+
+
 def h_not_fitted(ctx):
     q = (np.array([0.7, 1.9]), np.array([1.1, -0.4]))
     x = ctx.real("x")
@@ -424,6 +472,7 @@ def _cfg_purity(tier, seed):
 HARNESSES = [
     Harness("purity_and_repeatability", h_purity, _cfg_purity, bounds="30 public callables / estimator method sequences on a concrete 4-point layout with symbolic data, weights, grids and Jacobians; every argument array read-only; each call repeated", stubs=["cKDTree / sklearn / scipy interpolators / scorer / RNG -> contract stubs", "block_split (inside block reductions) -> C08 contract"], extra_globals=_globals, engine={"oneshot": True, "keyed_sqrt": True}, outside="functions not listed in functions_encoded", timeout_s=900),
     Harness("history_freedom", h_history, lambda tier, seed: [{"kind": k} for k in ("trend", "spline", "vector", "vector_fc", "kneighbors", "linear", "cubic")], bounds="fit on dataset A then on dataset B (different concrete 4-point layouts, symbolic data) versus a fresh estimator fitted on B; clone and get_params round trips", stubs=["sklearn / cKDTree / scipy interpolators -> contract stubs"], extra_globals=_globals, engine={"oneshot": True}),
+    Harness("no_aliasing", h_no_aliasing, lambda tier, seed: [{"kind": k, "shape": s} for k, s in (("trend", (4,)), ("spline", (4,)), ("spline", (2, 2)), ("vector", (4,)), ("vector_fc", (2, 2)), ("kneighbors", (4,)), ("kneighbors", (2, 2)), ("linear", (4,)))], bounds="every gridder fitted on a concrete 4-point layout (1-D and 2x2 contiguous arrays) with symbolic data and weights; all ndarray attributes (also inside tuples) of the fitted estimator", stubs=["sklearn / cKDTree / scipy interpolators -> contract stubs"], extra_globals=_globals, engine={"oneshot": True}),
     Harness("not_fitted", h_not_fitted, {"quick": [{}]}, bounds="9 gridders, symbolic query offset", extra_globals=_globals),
     Harness(
         "reject_fit_input",
